@@ -166,6 +166,11 @@ def build_md_value(rec):
         return [build_md_value(x) for x in rec["xs"]]
     if t == "dict":
         return {k: build_md_value(v) for k, v in rec["items"]}
+    if t == "py":
+        # an edge value written as a Python expression over numpy (our own recipes only)
+        return eval(rec["expr"], {"np": np, "__builtins__": {"set": set, "frozenset": frozenset, "range": range, "bytes": bytes,
+                                                              "bytearray": bytearray, "complex": complex, "float": float, "int": int,
+                                                              "tuple": tuple, "list": list, "dict": dict, "object": object}})
     if t == "npscalar":
         return np.dtype(rec["dtype"]).type(rec["v"])
     if t == "bytes":
